@@ -7,7 +7,7 @@
 #         (exhaustive for n < 2^16 on isprime/isprime_Tabule/isprime_Tabule2/next/prev; generated beyond).
 # search: sieve of Eratosthenes, deterministic Miller-Rabin (bases 2..41 and more), re-multiplication of factor
 #         lists with independent primality of each factor, brute-force divisor lists.
-import json, os, re, sys
+import json, math, os, re, sys
 
 if __name__ == "__main__":
     sys.path.insert(0, os.path.join(os.path.dirname(os.path.dirname(os.path.abspath(__file__))), "lib"))
@@ -356,18 +356,62 @@ def prev_prime(p):          # documented value 2 at the low end
 
 
 def iroot(n, k):
-    """floor(n^(1/k)) for n >= 0, k >= 1 (Newton on integers)"""
+    """floor(n^(1/k)) for n >= 0, k >= 1: float estimate from the top 53 bits, corrected exactly (small roots),
+    or integer Newton started just above the root (large roots)"""
     if n < 2 or k == 1:
         return n
     bl = n.bit_length()
     if k >= bl:
         return 1
-    x = 1 << ((bl + k - 1) // k)          # >= the root
+    sh = max(0, bl - 64)
+    lg = sh + math.log2(n >> sh)              # log2(n) to ~1e-15 relative
+    if lg / k < 40:
+        r = int(2.0 ** (lg / k))
+        while r ** k > n:
+            r -= 1
+        while (r + 1) ** k <= n:
+            r += 1
+        return r
+    x = 1 << (int(lg / k) + 1)                # >= the root
     while True:
         y = ((k - 1) * x + n // x ** (k - 1)) // k
         if y >= x:
             return x
         x = y
+
+
+_RESMOD = {}
+
+
+def residue_moduli(k):
+    if k not in _RESMOD:
+        ms, m = [], k + 1
+        while len(ms) < 4:
+            if is_prime(m):
+                ms.append(m)
+            m += k
+        _RESMOD[k] = ms
+    return _RESMOD[k]
+
+
+def exact_root(n, k):
+    """r with r^k = n, or None; candidates are screened modulo 2^64 before the full power is computed"""
+    bl = n.bit_length()
+    sh = max(0, bl - 64)
+    lg = sh + math.log2(n >> sh)
+    if lg / k >= 40:
+        for m in residue_moduli(k):           # n must be a k-th power residue modulo primes m = 1 (mod k)
+            t = n % m
+            if t and pow(t, (m - 1) // k, m) != 1:
+                return None
+        r = iroot(n, k)
+        return r if r ** k == n else None
+    r0 = int(round(2.0 ** (lg / k)))
+    M = (1 << 64) - 1
+    for r in (r0, r0 - 1, r0 + 1):
+        if r >= 2 and pow(r, k, M + 1) == (n & M) and r ** k == n:
+            return r
+    return None
 
 
 _PRIMES_TO = {}
@@ -388,19 +432,25 @@ def prime_power(n):
     if n % 2 == 0:
         k = (n & -n).bit_length() - 1
         return (k, 2) if n == 1 << k else None
+    for p in SMALLP:                            # a small prime factor decides at once
+        if n % p == 0:
+            k = 0
+            while n % p == 0:
+                n //= p; k += 1
+            return (k, p) if n == 1 else None
     e = 1
     again = True
     while again:
         again = False
-        for k in primes_upto(max(2, n.bit_length())):
-            if k > n.bit_length():
+        for k in primes_upto(max(2, n.bit_length() // 10)):      # the root is >= 2000 > 2^10
+            if k > n.bit_length() // 10:
                 break
-            r = iroot(n, k)
-            if r < 2:
-                break
-            if r ** k == n:
+            r = exact_root(n, k)
+            if r is not None:
                 n, e, again = r, e * k, True
                 break
+    if e == 1 and n.bit_length() > 3000:
+        return None                           # not a PROPER power; whether this huge n is prime is not asked (callers want e >= 2)
     return (e, n) if is_prime(n) else None
 
 
